@@ -231,3 +231,32 @@ def max_repeat_of_class(p, pred):
                         return None
                     worst = max(worst, av[1])
     return worst
+
+
+def guard_excludes(pattern, flags, method, forbidden):
+    """Does `<compiled pattern>.<method>(s)` being truthy guarantee that s contains none of `forbidden`?
+    -> (bool, reason).  Structural: the characters any match can contain, and whether the match must span all of s."""
+    import re as _re
+
+    flags = int(flags or 0)
+    p = parse(pattern, flags)
+    chars = any_chars(p, dotall=bool(flags & _re.DOTALL), ignorecase=bool(flags & _re.IGNORECASE), ascii_only=bool(flags & _re.ASCII))
+    hit = sorted(set(forbidden) & chars)
+    if hit:
+        return False, f"the pattern itself can match {hit!r}"
+    if method == "fullmatch":
+        return True, "fullmatch over a class excluding them"
+    if method == "search" and start_anchor(p) is None:
+        return False, "search() is not anchored at the start: text before the match is unconstrained"
+    if method not in ("match", "search"):
+        return False, f"{method}() does not constrain the whole string"
+    if flags & _re.MULTILINE:
+        return False, "MULTILINE anchors constrain one line only"
+    ea = end_anchor(p)
+    if ea == "Z":
+        return True, "anchored with \\Z"
+    if ea == "$":
+        if "\n" in forbidden:
+            return False, "`$` also matches before a trailing newline: a value ending in LF passes the guard"
+        return True, "anchored with $"
+    return False, "the match need not reach the end of the string"
